@@ -1,5 +1,7 @@
 import ServiceModel.Proofs.Reachable
 import ServiceModel.Model.Query
+import ServiceModel.Proofs.StoreKeys
+import ServiceModel.Basic.Scan
 /-!
 # C17 — Queries return exactly the stored state
 
@@ -178,5 +180,25 @@ theorem schema_exact (s : State) (name : String) :
     query s (.schema name) =
       (if name.toLower = "pricing" then .ok (.schema .pricing)
        else if name.toLower = "result" then .ok (.schema .result) else .error .invalidSchemaName) := rfl
+
+/-- The model state is a faithful store. `Map` is an association list with first-match lookup; the module's store
+    holds one value per key. In every state of every chain (any operations, any number of restarts) every record map has
+    one record per key and every index set lists each entry once (`Keys1`), so a scan of a record kind — what the
+    listing queries, the export and the raw-list monitors walk over — is exactly what the point lookups see:
+    `(k, v)` is an entry of the list iff `get k = some v`. -/
+theorem store_has_one_record_per_key {s : State} (hr : ReachableR cfg p h0 t0 s) :
+    Keys1 s ∧
+    (∀ r q, (r, q) ∈ s.reqs ↔ Map.get s.reqs r = some q) ∧
+    (∀ r q, (r, q) ∈ s.resps ↔ Map.get s.resps r = some q) ∧
+    (∀ k b, (k, b) ∈ s.bindings ↔ Map.get s.bindings k = some b) ∧
+    (∀ c x, (c, x) ∈ s.ctxs ↔ Map.get s.ctxs c = some x) ∧
+    (∀ n d, (n, d) ∈ s.defs ↔ Map.get s.defs n = some d) := by
+  have k := keys1_reachableR hr
+  have key : ∀ {κ ν : Type} [DecidableEq κ] (m : Map κ ν), Map.NodupKeys m → ∀ a b, (a, b) ∈ m ↔ Map.get m a = some b := by
+    intro κ ν _ m hm a b
+    have := Map.mem_entries m a b
+    rw [Map.entries_of_nodupKeys m hm] at this
+    exact this
+  exact ⟨k, key _ k.reqs, key _ k.resps, key _ k.bindings, key _ k.ctxs, key _ k.defs⟩
 
 end SM.C17
